@@ -740,8 +740,11 @@ func (ar *asyncRunner) start(nArgs int) {
 	ar.promiseCap = r.newPromiseCapability(r.getPromise())
 	sp := r.vm.sp
 	ar.gen.enter()
-	ar.vmCall(r.vm, nArgs)
-	res, resType, ex := ar.gen.step()
+	res, resType, ex := func() (Value, resultType, *Exception) {
+		defer ar.gen.abort()
+		ar.vmCall(r.vm, nArgs)
+		return ar.gen.step()
+	}()
 	ar.step(res, resType == resultNormal, ex)
 	if ex != nil {
 		r.vm.sp = sp - nArgs - 2
@@ -899,6 +902,25 @@ func (g *generator) step() (res Value, resultType resultType, ex *Exception) {
 	return
 }
 
+// abort is deferred around the code that runs between enter()/enterNext() and the matching popTryFrame()/popCtx():
+// an uncatchable error (interrupt, stack overflow) or a foreign Go panic passing through must not leave the marker
+// frame and the context behind on an otherwise idle runtime.
+func (g *generator) abort() {
+	if x := recover(); x != nil {
+		// the marker pushed by enter()/enterNext() and anything still above it (a finally frame re-marked by return())
+		for len(g.vm.tryStack) >= int(g.tryStackLen) {
+			g.vm.popTryFrame()
+		}
+		g.vm.popCtx()
+		panic(x)
+	}
+}
+
+func (g *generator) stepGuarded() (Value, resultType, *Exception) {
+	defer g.abort()
+	return g.step()
+}
+
 func (g *generator) enterNext() {
 	g.vm.pushCtx()
 	g.vm.pushTryFrame(tryPanicMarker, -1)
@@ -913,7 +935,7 @@ func (g *generator) next(v Value) (Value, resultType, *Exception) {
 	if v != nil {
 		g.vm.push(v)
 	}
-	res, done, ex := g.step()
+	res, done, ex := g.stepGuarded()
 	g.vm.popTryFrame()
 	g.vm.popCtx()
 	return res, done, ex
@@ -921,17 +943,21 @@ func (g *generator) next(v Value) (Value, resultType, *Exception) {
 
 func (g *generator) nextThrow(v interface{}) (Value, resultType, *Exception) {
 	g.enterNext()
-	ex := g.vm.handleThrow(v)
-	if ex != nil {
-		ex = g.leaveReturnFinally(ex)
-	}
+	ex := func() *Exception {
+		defer g.abort()
+		ex := g.vm.handleThrow(v)
+		if ex != nil {
+			ex = g.leaveReturnFinally(ex)
+		}
+		return ex
+	}()
 	if ex != nil {
 		g.vm.popTryFrame()
 		g.vm.popCtx()
 		return nil, resultNormal, ex
 	}
 
-	res, resType, ex := g.step()
+	res, resType, ex := g.stepGuarded()
 	g.vm.popTryFrame()
 	g.vm.popCtx()
 	return res, resType, ex
@@ -943,9 +969,11 @@ func (g *generatorObject) init(vmCall func(*vm, int), nArgs int) {
 	g.gen.vm = vm
 
 	g.gen.enter()
-	vmCall(vm, nArgs)
-
-	_, _, ex := g.gen.step()
+	_, _, ex := func() (Value, resultType, *Exception) {
+		defer g.gen.abort()
+		vmCall(vm, nArgs)
+		return g.gen.step()
+	}()
 
 	vm.popTryFrame()
 	if ex != nil {
@@ -1104,7 +1132,10 @@ func (g *generatorObject) _return(v Value) Value {
 	g.gen.returning = v
 	g.state = genStateExecuting
 	g.gen.enterNext()
-	canContinue, ex := g.gen.enterNextFinallyFrame()
+	canContinue, ex := func() (bool, *Exception) {
+		defer g.gen.abort()
+		return g.gen.enterNextFinallyFrame()
+	}()
 	if ex != nil {
 		vm := g.gen.vm
 		vm.popTryFrame()
@@ -1130,7 +1161,7 @@ func (g *generatorObject) _return(v Value) Value {
 
 		return g.val.runtime.createIterResultObject(v, true)
 	}
-	res, done, ex := g.gen.step()
+	res, done, ex := g.gen.stepGuarded()
 	vm := g.gen.vm
 	vm.popTryFrame()
 	vm.popCtx()
